@@ -49,13 +49,13 @@ Proof.
   destruct (positions_from 0 ex (it_descs it)) as [|p ps] eqn:Hp.
   - destruct (search (fuel_for (it_descs it)) r (N.succ (it_state it)) (it_descs it)) as [[st2 cur]|] eqn:Hs; [|discriminate].
     inversion H; subst. simpl. split.
-    + intros y Hy. destruct cur as [|c0 ct]; [contradiction|].
+    + intros y Hy. destruct sol as [|c0 ct]; [contradiction|].
       destruct (search_sound _ _ _ _ _ _ Hs) as [_ E]; [discriminate|]. rewrite E in Hy. eapply current_from_sub; exact Hy.
     + left. split; [reflexivity|]. symmetry. eapply positions_nil; exact Hp.
   - unfold exclude_step in H.
     match type of H with context [search ?f r ?s ?d] => destruct (search f r s d) as [[st2 cur]|] eqn:Hs; [|discriminate] end.
     inversion H; subst. simpl. split.
-    + intros y Hy. destruct cur as [|c0 ct]; [contradiction|].
+    + intros y Hy. destruct sol as [|c0 ct]; [contradiction|].
       destruct (search_sound _ _ _ _ _ _ Hs) as [_ E]; [discriminate|]. rewrite E in Hy. eapply current_from_sub; exact Hy.
     + left. split; [reflexivity|]. rewrite <- Hp. apply remove_positions.
 Qed.
